@@ -234,6 +234,8 @@ func init() {
 	registerRule(&RuleDef{ID: "GEN-ENUM", Min: 1, Doc: "enum alias names only with enum types on", Run: ruleGENENUM})
 	registerRule(&RuleDef{ID: "L-ATOM", Min: 8, Doc: "no value read from a guarded field is used in a later critical section of the same lock (split critical section / check-then-act)", Run: ruleLATOM("client", "cache", "server", "database/inmemory")})
 	add("C05", "L-ATOM")
+	registerRule(&RuleDef{ID: "GEN-SKIP", Min: 1, Doc: "the generator skips writing a file only after a whole-content comparison (or in dry-run mode)", Run: ruleGENSKIP})
+	add("C20", "GEN-SKIP")
 	registerRule(&RuleDef{ID: "T-STALE", Min: 4, Doc: "no two AddOperation calls on one accumulator and row are given the same current value when one can follow the other", Run: ruleTSTALE})
 	registerRule(&RuleDef{ID: "T-SEEALL", Min: 2, Doc: "the row state the reference tracker consults includes the changes of its earlier rounds", Run: ruleTSEEALL})
 	add("C04", "T-STALE", "T-SEEALL")
